@@ -56,7 +56,8 @@ CHECKS = {
              "nothing else does) and hook log of every fault-free call from any consistent state: C02_parent, C02_del, "
              "C02_children (detach all former children in order, attach the new ones in order), C02_children_treeerror / "
              "_not_iterable / _looperror (refusals), C02_constructors (= creation of a detached node followed by the "
-             "assignments). Tie: every forest <= 3 nodes (all) and 4 nodes (sampled) x every call (node, None, non-node "
+             "assignments); C02_quiet_oracle_is_fault_free lifts them to every fault oracle that does not fire "
+             "during the call. Tie: every forest <= 3 nodes (all) and 4 nodes (sampled) x every call (node, None, non-node "
              "incl. falsy non-node arguments) x 5 classes + adversarial classes + random histories; the pointwise spec "
              "is also evaluated on the observed states.",
         design="6/C02, 0", note="fault-free calls; calls with raising hooks are C03/C16's subject.",
@@ -65,7 +66,9 @@ CHECKS = {
         text="The full statement is false of the code (5 known-finding classes, each reproduced and listed). Proved: "
              "C03_parent_guarded (exact boundary for the parent setter under any fault oracle), validation refusals and "
              "_pre_detach_children veto of the children setter/deleter, and five _refuted theorems with witnesses "
-             "computed on the faithful model. Tie: every forest <= 3 nodes x every call x every single fault position x "
+             "computed on the faithful model; a positive boundary inside the attach phase: a veto by "
+             "_pre_attach_children alone is rolled back completely (C03_children_pre_attach_veto_restores, using the "
+             "oracle-extensionality lemmas of Proofs/FaultExt.v). Tie: every forest <= 3 nodes x every call x every single fault position x "
              "persistent pre-hook vetoes x sampled doubles; spec 'refusal/pre-veto => links unchanged' evaluated in Coq "
              "on observed states; failures must fall in a listed class AND equal the model, else VIOLATION.",
         design="6/C03, 7", note="partial: guarded theorem for the attach phase of the children setter not proved.",
